@@ -30,7 +30,7 @@ CTX = None
 MON = None
 NN = {"v": 6}
 _TEXTS = {}
-FULL_EVERY = {"quick": 12, "thorough": 2}
+FULL_EVERY = {"quick": 12, "thorough": 3}
 
 
 def report(check, args, detail):
@@ -375,7 +375,7 @@ CHECKS = {"shade1": chk_shade1, "shade2": chk_shade2, "table": chk_table, "inser
 
 def plan(tier, seed):
     specs = [{"name": f"small-{i}", "kind": "small", "part": i, "parts": 16} for i in range(16)]
-    n3 = 1600 if tier == "quick" else 20000
+    n3 = 1600 if tier == "quick" else 8000
     specs += [{"name": f"rand-{i}", "kind": "rand", "count": n3 // 16, "k4": 0 if tier == "quick" else 40} for i in range(16)]
     return specs
 
